@@ -205,7 +205,7 @@ func TestVerifDiskCorrespondence(t *testing.T) {
 		vDiskCase(t, cs, vNewRand(fmt.Sprintf("disk-%d", ci)), ci)
 		cs.Done()
 	})
-	rec.Set("rule", "case = one history of up to 40/80 disk.Cache operations (put with 9 stream kinds, get raw/zstd at offsets, contains, scripted proxy answers) on a fresh cache with the toy codec; 6 keys per key space, sizes relative to max_size in {fits, fills, exceeds}; distinct by sequence of (op kind, result)")
+	rec.Set("rule", "case = one history of up to 40/80 disk.Cache operations (put with 9 stream kinds, get raw/zstd at offsets, contains, scripted proxy answers, files of live entries unlinked or damaged behind the cache's back and then read) on a fresh cache with the toy codec; 6 keys per key space, sizes relative to max_size in {fits, fills, exceeds}; distinct by sequence of (op kind, result)")
 }
 
 func vDiskCase(t *testing.T, rec *vCase, rng *vRand, ci int) {
@@ -308,7 +308,7 @@ func vDiskCase(t *testing.T, rec *vCase, rng *vRand, ci int) {
 		kindS := k.kind.String()
 		opKind := ""
 		switch x := rng.Intn(100); {
-		case x < 45: // ---- put
+		case x < 42: // ---- put
 			variant := []string{"exact", "exact", "exact", "short", "long", "fault", "faultMid", "badhash", "wrongsize", "sizeNeg", "badHashLen", "empty"}[rng.Intn(12)]
 			data := k.data
 			declared := int64(len(data))
@@ -406,7 +406,7 @@ func vDiskCase(t *testing.T, rec *vCase, rng *vRand, ci int) {
 			if declared > maxBlob && code != "e400" && declared >= 0 {
 				rec.Violation("C18", "disk.put.over-limit-code", fmt.Sprintf("oversize Put answered %s, want a client error", code), rec.CaseOps())
 			}
-		case x < 80: // ---- get
+		case x < 76: // ---- get
 			size := int64(len(k.data))
 			switch rng.Intn(8) {
 			case 0:
@@ -544,7 +544,7 @@ func vDiskCase(t *testing.T, rec *vCase, rng *vRand, ci int) {
 					}
 				}
 			}
-		case x < 95: // ---- contains
+		case x < 90: // ---- contains
 			size := int64(len(k.data))
 			switch rng.Intn(6) {
 			case 0:
@@ -585,6 +585,74 @@ func vDiskCase(t *testing.T, rec *vCase, rng *vRand, ci int) {
 					rec.Violation("C18", "disk.contains.over-proxy-limit", fmt.Sprintf("Contains reported a %d-byte backend object present with max_proxy_blob_size %d", fs, maxProxy), rec.CaseOps())
 				}
 			}
+		case x < 96 && px == nil: // ---- the file of a live entry is damaged behind the cache's back, then read
+			ok, _ := vProbe(c, lk)
+			if !ok {
+				break
+			}
+			c.mu.Lock()
+			ent := c.lru.cache[lk].Value.(*entry)
+			p := c.getElementPath(lk, ent.value)
+			compressed := k.kind == cache.CAS && !ent.value.legacy
+			c.mu.Unlock()
+			how := 0 // unlink
+			if compressed {
+				how = rng.Intn(3) // also: first byte changed, last byte dropped
+			}
+			switch how {
+			case 0:
+				_ = os.Remove(p)
+			default:
+				b, rerr := os.ReadFile(p)
+				if rerr != nil || len(b) == 0 {
+					break
+				}
+				if how == 1 {
+					b[0] = byte((int(b[0]) + 1) % 256)
+				} else {
+					b = b[:len(b)-1]
+				}
+				_ = os.WriteFile(p, b, 0o644)
+			}
+			rec.Op(fmt.Sprintf("disk.damage kind=%s hash=%s how=%d", kindS, k.hash, how), "damage "+vDiskCore(c, px))
+			z := k.kind == cache.CAS && rng.Pct(50)
+			size := int64(len(k.data))
+			if a, ok := acked[lk]; ok {
+				size = int64(len(a))
+			}
+			if rng.Pct(30) {
+				size = -1
+			}
+			var rc io.ReadCloser
+			var fsz int64
+			var gerr error
+			if z {
+				rc, fsz, gerr = c.GetZstd(ctx, k.hash, size, 0)
+			} else {
+				rc, fsz, gerr = c.Get(ctx, k.kind, k.hash, size, 0)
+			}
+			res := ""
+			if gerr != nil {
+				res = vCode(gerr)
+			} else if rc == nil {
+				res = "miss"
+			} else {
+				got, rerr := io.ReadAll(rc)
+				_ = rc.Close()
+				cl := 0
+				if rerr == nil {
+					cl = 1
+				}
+				res = fmt.Sprintf("hit len=%d sum=%d size=%d clean=%d", len(got), vSum32(got), fsz, cl)
+				rec.Violation("C02", "disk.get.damaged-served", fmt.Sprintf("a %s entry whose file was damaged (how=%d) was served as a hit: %s", kindS, how, res), rec.CaseOps())
+			}
+			zi := 0
+			if z {
+				zi = 1
+			}
+			rec.Op(fmt.Sprintf("disk.get kind=%s hash=%s size=%d off=0 zstd=%d pg=none rnd=-", kindS, k.hash, size, zi), "get="+res+" "+vDiskCore(c, px))
+			delete(acked, lk)
+			opKind = fmt.Sprintf("damage%d-get-%s", how, strings.SplitN(res, " ", 2)[0])
 		case x < 98: // ---- an upload whose temp file cannot be created (its shard directory is missing)
 			d := vGenBytes(ci, 7000+oi, 1, 100+rng.Intn(9000))
 			h := vHash(d)
